@@ -1172,6 +1172,29 @@ func (e *SpecEnv) evalCall(n *ast.CallExpr) (Val, error) {
 			default:
 				return Val{T: fmt.Sprintf("(or (= %s 0) (>= %s %s))", v.T, v.T, a0), Ty: boolT}, nil
 			}
+		case "calls":
+			// calls(f): how many calls to f (named as in `call f#k` clauses) this invocation has made so far
+			id, ok := n.Args[0].(*ast.Ident)
+			if !ok || len(n.Args) != 1 {
+				return Val{}, fmt.Errorf("calls(f) takes a callee name")
+			}
+			if !e.fc.top.countCalls[id.Name] {
+				return Val{}, fmt.Errorf("calls(%s): internal error, name not registered", id.Name)
+			}
+			return Val{T: e.st.callCount(id.Name), Ty: types.Typ[types.Int]}, nil
+		case "callresult":
+			// callresult(f, k): what the k-th call site of f returned when it was last executed (a tuple for
+			// several results: pick with first(...) / second(...))
+			id, ok := n.Args[0].(*ast.Ident)
+			lit, ok2 := n.Args[1].(*ast.BasicLit)
+			if !ok || !ok2 || len(n.Args) != 2 {
+				return Val{}, fmt.Errorf("callresult(f, k) takes a callee name and a call-site ordinal")
+			}
+			v, has := e.fc.top.callResults[id.Name+"#"+lit.Value]
+			if !has {
+				return Val{}, fmt.Errorf("callresult(%s, %s): that call site has not been executed here (or returns nothing)", id.Name, lit.Value)
+			}
+			return v, nil
 		case "samebase":
 			// samebase(a, b): two slices share their backing array
 			a, err := e.eval(n.Args[0])
